@@ -117,7 +117,7 @@ SAN = "asan" in os.environ.get("LD_PRELOAD", "")
 WORKERS = 8
 BATCH = 24
 CASE_LIMIT_S = 60 if SAN else 15        # per-case watchdog inside the child
-SIZED_LIMIT_S = 240 if SAN else 40      # ... for the size-ladder / history cases (thorough tier: x4)
+SIZED_LIMIT_S = 240 if SAN else 20      # ... for the size-ladder / history cases (thorough tier: x4)
 SAN_WORDS = ("AddressSanitizer", "runtime error:", "UndefinedBehaviorSanitizer", "LeakSanitizer")
 
 ENTRIES = {}        # entry name -> (driver, generator)
